@@ -59,7 +59,9 @@ func (rt *runtime) cmplEvaluateNodeStatement(node nodeStatement) Value {
 		return emptyValue
 
 	case *nodeExpressionStatement:
-		return rt.cmplEvaluateNodeExpression(node.expression)
+		// 12.4: GetValue is applied when the statement is evaluated (getters run,
+		// unresolvable references throw), not when some list later reads the value.
+		return rt.cmplEvaluateNodeExpression(node.expression).resolve()
 
 	case *nodeForInStatement:
 		return rt.cmplEvaluateNodeForInStatement(node)
